@@ -1002,6 +1002,37 @@ def ob_locate_pixels(et):
     return Verdict(DISCHARGED, backend="native gmsh mesh", sub=n)
 
 
+def ob_locate_twisted(angle_deg):
+    """a general hexahedron whose top face is turned by +a and bottom face by -a about the vertical axis (trilinear, not affine; the DETERMINANT of its Jacobian
+    is the same at the 2x2x2 Gauss points): the points located in it carry the reference coordinates of the trilinear map, a linear field is reproduced there."""
+    from EasyFEA import ElemType, Mesh
+    from EasyFEA.FEM import GroupElemFactory
+    a = np.deg2rad(angle_deg)
+    ref = np.array([[-1, -1, -1], [1, -1, -1], [1, 1, -1], [-1, 1, -1], [-1, -1, 1], [1, -1, 1], [1, 1, 1], [-1, 1, 1]], dtype=float)
+
+    def twist(p):
+        r, s_, t = p.T
+        return np.stack([r * np.cos(a) - s_ * t * np.sin(a), s_ * np.cos(a) + r * t * np.sin(a), t], 1)
+    coord = twist(ref)
+    group = GroupElemFactory.Create(ElemType.HEXA8, np.arange(8).reshape(1, 8), coord)
+    mesh = Mesh({ElemType.HEXA8: group})
+    rng = np.random.default_rng(1)
+    xi = rng.uniform(-0.6, 0.6, (40, 3))
+    pts = twist(xi)
+    f = lambda x: 1 + 2 * x[:, 0] - 3 * x[:, 1] + 0.5 * x[:, 2]
+    val = np.asarray(mesh.Evaluate_dofsValues_at_coordinates(pts, f(coord))).reshape(len(pts), -1)[:, 0]
+    located = np.asarray(group.Get_Mapping(pts)[0], dtype=int)
+    if located.size == 0:
+        raise Unsupported("no point located (the in-element test on warped faces is a separate, known finding)")
+    err = float(np.abs(val - f(pts))[located].max())
+    if err > 1e-6:
+        k = located[int(np.argmax(np.abs(val - f(pts))[located]))]
+        raise Refuted(f"HEXA8 twisted by +-{angle_deg:g} degrees (one element): at the {located.size} points located in the element a linear nodal field is off by up to {err:.3e} "
+                      f"(e.g. at {np.round(pts[k], 4).tolist()}: {val[k]:.6g} instead of {f(pts[k:k+1])[0]:.6g}): the element is taken for an affine one",
+                      cex=dict(angle=angle_deg, point=pts[k].tolist()), signature="locate:twisted:HEXA8", replay=dict(confirmed=True, max_err=err, located=int(located.size)))
+    return Verdict(DISCHARGED, backend="native", detail=f"{located.size} located points, err {err:.1e}")
+
+
 def ob_locate_warped(et):
     """general hexahedra / prisms whose faces are NOT planar (interior nodes of a structured box mesh moved at random; the box is still tiled exactly and the Jacobians stay
     positive): every interior point is located and a linear field is reproduced."""
@@ -1271,6 +1302,9 @@ def build(tier, seed):
     for et in ("TRI3", "QUAD4", "TRI6"):
         obs.append(Ob(f"C08.locate.pixels.{et}", ob_locate_pixels, (et,), "X", (f"{GE}::_GroupElem._Get_coord_Near", "EasyFEA/FEM/_mesh.py::Mesh.Evaluate_dofsValues_at_coordinates"),
                       bound="5 x 5 integer grids on a 4 x 4 domain, two origins, two listing orders", clause="integer-typed query points are located like the same points given as floats", timeout=600))
+    for ang in (25.0, 10.0):
+        obs.append(Ob(f"C08.locate.twisted.HEXA8.{ang:g}", ob_locate_twisted, (ang,), "X", (f"{GE}::_GroupElem._Get_Mapping",), bound="one twisted hexahedron, 40 interior points", timeout=300,
+                      clause="a general hexahedron is not taken for an affine one because its Jacobian determinant coincides at the Gauss points: a linear field is reproduced at the located points"))
     for et in ("HEXA8", "PRISM6"):
         obs.append(Ob(f"C08.locate.warped.{et}", ob_locate_warped, (et,), "X", (f"{GE}::_GroupElem.Get_pointsInElem",), bound="one 64 / 128-element box mesh with perturbed interior nodes, 1500 points", timeout=1200,
                       clause="points inside general elements with non-planar faces are located; a linear field is reproduced"))
